@@ -213,7 +213,7 @@ DEFAULT_KNOBS = dict(
     orphans_return=True, txindex=True, urls=1, resegment=True, max_hist_row=None,
     services='tcp://:50001,rpc://:8000', peer_discovery='off', tor_proxy_port=None, session_timeout=10_000_000,
     request_timeout=30, cost_limits=(0, 0), extra_env=None, stall_boost=None, polling_delay=None,
-    refresh_secs=None, protos=None, stall_max=None, file_size=None,
+    refresh_secs=None, protos=None, stall_max=None, file_size=None, log_status_secs=None, line_stall_p=None,
 )
 
 
@@ -229,6 +229,8 @@ class World:
             self.sim.stall_boost = tuple(k['stall_boost'])
         if k.get('stall_max'):
             self.sim.stall_max = float(k['stall_max'])
+        if k.get('line_stall_p'):
+            self.sim.line_stall_p = float(k['line_stall_p'])
         self.fs = seams.SimFS()
         self.fs.sim = self.sim
         self.store = seams.SimDBStore()
@@ -286,6 +288,7 @@ class World:
         bpmod.BlockProcessor.polling_delay = self.k.get('polling_delay') or 5
         rs = float(self.k.get('refresh_secs') or 5.0)
         _set_default(mpmod.MemPool.__init__, 'refresh_secs', rs)
+        _set_default(mpmod.MemPool.__init__, 'log_status_secs', float(self.k.get('log_status_secs') or 60.0))
 
     def _install(self):
         global _current
